@@ -53,6 +53,8 @@ LEVEL_NOTE = ("Trusted: Coq 8.16.1 kernel incl. vm_compute; standard-library rea
               "to /repo by the sampled correspondence check; float predicates are compared on integer/dyadic inputs where they are exact (the property's own "
               "domain: points off the boundary); sqrt (distance < tol as squared distance) and multiprocessing.Pool.map (order-preserving map) are modelled, "
               "not verified.")
+# functions of the numerical core this property rests on that are also tied by the translator (tie theorems: Proofs/GenTie*.v, restated in Props/)
+TRANSLATED = ["linalg.is_left", "linalg.wn_poly", "linalg.convex_hull", "_voxelize.is_point_inside_voxel", "_voxelize.find_inouts_st"]
 TECHNIQUE = "machine-checked proof in Coq (ring/field/nsatz/lra over R) on a Gallina model + vm_compute correspondence with geomdl + exact Fraction oracles"
 
 
